@@ -211,7 +211,27 @@ func ruleFMT2(c *Ctx) {
 			}
 			return true
 		})
-		sym := strings.Contains(w.Src(tl.Body), "> max") && strings.Contains(w.Src(tl.Body), "< -max")
+		// x > max and x < -max, in either spelling
+		up, down := false, false
+		ast.Inspect(tl.Body, func(n ast.Node) bool {
+			e, ok := n.(ast.Expr)
+			if !ok {
+				return true
+			}
+			if b, ok := gtExpr(e); ok && b.Op == token.GTR {
+				_, bigIsParam := ast.Unparen(b.X).(*ast.Ident)
+				_, smallIsNeg := ast.Unparen(b.Y).(*ast.UnaryExpr)
+				_, bigIsNeg := ast.Unparen(b.X).(*ast.UnaryExpr)
+				if bigIsParam && !smallIsNeg && !bigIsNeg {
+					up = true // x > max
+				}
+				if bigIsNeg {
+					down = true // -max > x
+				}
+			}
+			return true
+		})
+		sym := up && down
 		c.check(okc && sym, "bounded/tooLarge", tl, "|x| > max with a small constant max", "tooLarge no longer bounds the magnitude by a small constant on both sides")
 	}
 }
